@@ -148,7 +148,7 @@ def gather(tier: str, seed: int, want: Callable[[Model, gen.Unit, str, corpus.De
                 if not kinds:
                     continue
                 cls = mdl.cost_class(t)
-                if cls == 'heavy' and tier == 'quick':
+                if cls == 'heavy' and tier == 'quick' and not (d.core and set(kinds) <= {'c03', 'c05'}):
                     info.setdefault('heavy_left_to_thorough', []).append(f'{u.desc_id}/{t}')
                     continue
                 L = input_bound(mdl, t, tier, cls)
